@@ -345,6 +345,22 @@ def oracle_case(case: dict, tmp: Path, tag: str, final_path=None):
             o_refq = observe_full(refq, touched)
     except Exception as e:  # noqa: BLE001
         return [("reference-run-raises", f"{type(e).__name__}: {e}")]
+    # labels set through the API read back as set (the last value given), before any save
+    last = {}
+    for ev in H:
+        if ev[0] in ("tname", "sname", "cap", "cap_en", "name_en"):
+            last[ev[0]] = ev[1]
+    try:
+        sh_ref = ref.sheets[tbl[0]]
+        got = {"tname": t_ref.name, "sname": sh_ref.name, "cap": t_ref.caption, "cap_en": bool(t_ref.caption_enabled), "name_en": bool(t_ref.table_name_enabled)}
+        for k, v in last.items():
+            if k == "cap_en" and "cap" not in last:
+                continue      # a table that never had a caption (stand-in archive) reports its caption as not shown
+            want = bool(v) if k in ("cap_en", "name_en") else v
+            if got[k] != want:
+                fails.append((f"label-set-not-read-back:{k}", f"{k} set to {want!r} (last of the history), the open document reads {got[k]!r}"))
+    except Exception as e:  # noqa: BLE001
+        fails.append(("reference-run-raises", f"reading labels: {type(e).__name__}: {e}"))
     try:
         if final_path is None:
             _, _, final_path = run_history(src, tbl, H + [["cycle"]], tmp, tag + "_run", trace=False)
@@ -653,6 +669,30 @@ def run(ctx: Ctx) -> int:
         ctx.dist("api:label-sets", sum(1 for e in H if e[0] in ("hr", "hc", "tname", "sname", "cap", "cap_en", "name_en")))
         one_case(ctx, exe, {"source": src, "table": list(tbl), "history": H}, f"api{i}")
 
+    # ---- B2. geometry around merged ranges (implementation only)
+    mcases = [{"kind": "merge-geometry", "rows": 6, "cols": 4, "look_before_save": True,
+               "events": [["border", 1, 1, "bottom", 8.0, 1], ["q"], ["merge", "B2:B3"]]}]
+    mcases += [gen_merge_case(rng) for _ in range(25 if ctx.quick else 400)]
+    for i, mc in enumerate(mcases):
+        ctx.count("oracle-merge-geometry")
+        ctx.nontrivial(("merge-geometry", json.dumps(mc, sort_keys=True)))
+        for sig, detail in merge_oracle(mc, ctx.tmp, f"mg{i}"):
+            ctx.oracle_fail(sig, mc, detail)
+
+    # ---- B3. tables created with explicit arguments (implementation only)
+    acases = []
+    for how in ("add_table", "add_sheet"):
+        for hr, hc in ((0, 0), (1, 1), (3, 0), (0, 3), (2, 1), (1, 2), (5, 2)):
+            acases.append({"kind": "added-table", "how": how, "name": f"T {hr}{hc}", "hr": hr, "hc": hc,
+                           "rows": rng.randrange(6, 12), "cols": rng.randrange(4, 9), "xy": rng.choice([None, [rng.randrange(0, 900), rng.randrange(0, 900)]])})
+    if ctx.quick:
+        acases = [c for i, c in enumerate(acases) if c["hr"] != c["hc"] or i % 2 == 0]
+    for i, ac in enumerate(acases):
+        ctx.count("oracle-added-table")
+        ctx.nontrivial(("added-table", json.dumps(ac, sort_keys=True)))
+        for sig, detail in added_table_oracle(ac, ctx.tmp, f"at{i}"):
+            ctx.oracle_fail(sig, ac, detail)
+
     # ---- C. fixtures
     from numbers_parser import Document
     for f in readable_fixtures(ctx.quick):
@@ -672,6 +712,117 @@ def run(ctx: Ctx) -> int:
             ctx.dist("fixture:" + mode)
             one_case(ctx, exe, {"source": {"fixture": f}, "table": list(tbl), "history": H}, f"fx{f[:-8]}_{j}")
     return common.finish(ctx, search)
+
+
+def geometry(t):
+    return {"rows": [t.row_height(r) for r in range(t.num_rows)], "cols": [t.col_width(c) for c in range(t.num_cols)],
+            "height": t.height, "width": t.width}
+
+
+def merge_oracle(case: dict, tmp: Path, tag: str) -> list:
+    """Implementation-only (merges are outside the lock-step model): borders, size queries and merged ranges in any
+    order - what the open document reports just before a save is what the reopened file reports."""
+    from numbers_parser import RGB, Border, Document
+    fails = []
+    try:
+        doc = Document(num_rows=case["rows"], num_cols=case["cols"])
+        t = doc.sheets[0].tables[0]
+        for ev in case["events"]:
+            if ev[0] == "border":
+                t.set_cell_border(ev[1], ev[2], ev[3], Border(float(ev[4]), RGB(0, 0, 0), "solid"), ev[5])
+            elif ev[0] == "merge":
+                t.merge_cells(ev[1])
+            elif ev[0] == "rh":
+                t.row_height(ev[1], ev[2])
+            elif ev[0] == "cw":
+                t.col_width(ev[1], ev[2])
+            elif ev[0] == "q":
+                geometry(t)
+        before = geometry(t) if case.get("look_before_save", True) else None
+        p = tmp / f"{tag}_m.numbers"
+        doc.save(p)
+        after_open = geometry(t)
+        back = geometry(Document(p).sheets[0].tables[0])
+    except Exception as e:  # noqa: BLE001
+        return [("merge-geometry-raises", f"{type(e).__name__}: {e}")]
+    for name, a in (("before the save", before), ("on the open document after the save", after_open)):
+        if a is None:
+            continue
+        for k in ("rows", "cols", "height", "width"):
+            if a[k] != back[k]:
+                fails.append((f"merge-geometry-changed:{k}", f"{k} {name}: {a[k]}, after reopening: {back[k]}"))
+                break
+    return fails
+
+
+def added_table_oracle(case: dict, tmp: Path, tag: str) -> list:
+    """Labels and geometry given to Sheet.add_table / Document.add_sheet as arguments (implementation only): the new
+    table reports exactly what was asked for, on the open document and after save + reopen, twice."""
+    from numbers_parser import Document
+    want = {"name": case["name"], "hr": case["hr"], "hc": case["hc"], "rows": case["rows"], "cols": case["cols"]}
+    try:
+        doc = Document(num_rows=3, num_cols=3)
+        kw = dict(num_rows=case["rows"], num_cols=case["cols"], num_header_rows=case["hr"], num_header_cols=case["hc"])
+        if case.get("xy"):
+            kw.update(x=case["xy"][0], y=case["xy"][1])
+            want["xy"] = [float(case["xy"][0]), float(case["xy"][1])]
+        if case["how"] == "add_table":
+            doc.sheets[0].add_table(case["name"], **kw)
+            where = (0, 1)
+        else:
+            kw.pop("x", None), kw.pop("y", None)
+            want.pop("xy", None)
+            # add_sheet takes no header counts: the new table has the library's default of one header row and column
+            kw.pop("num_header_rows"), kw.pop("num_header_cols")
+            want["hr"] = want["hc"] = 1
+            doc.add_sheet("Added sheet", case["name"], **kw)
+            where = (1, 0)
+
+        def obs(d):
+            t = d.sheets[where[0]].tables[where[1]]
+            o = {"name": t.name, "hr": t.num_header_rows, "hc": t.num_header_cols, "rows": t.num_rows, "cols": t.num_cols}
+            if "xy" in want:
+                o["xy"] = [float(t.coordinates[0]), float(t.coordinates[1])]
+            return o
+        seen = [("open document", obs(doc))]
+        p = tmp / f"{tag}_1.numbers"
+        doc.save(p)
+        d2 = Document(p)
+        seen.append(("after one cycle", obs(d2)))
+        p2 = tmp / f"{tag}_2.numbers"
+        d2.save(p2)
+        seen.append(("after two cycles", obs(Document(p2))))
+    except Exception as e:  # noqa: BLE001
+        return [("added-table-raises", f"{type(e).__name__}: {e}")]
+    for name, o in seen:
+        bad = [k for k in want if o[k] != want[k]]
+        if bad:
+            return [(f"added-table-label-changed:{bad[0]}", f"{case['how']}({want}): {name} reports {bad[0]} = {o[bad[0]]!r}")]
+    return []
+
+
+def gen_merge_case(rng) -> dict:
+    nr, nc = rng.randrange(4, 8), rng.randrange(3, 7)
+    ev = []
+    r0, c0 = rng.randrange(nr - 1), rng.randrange(nc - 1)
+    r1, c1 = min(nr - 1, r0 + rng.randrange(1, 3)), min(nc - 1, c0 + rng.randrange(0, 3))
+    from numbers_parser.xrefs import xl_range
+    rng_a1 = xl_range(r0, c0, r1, c1)
+    # borders on edges inside, on the rim of, and away from the rectangle
+    for _ in range(rng.randrange(1, 5)):
+        r, c = rng.choice([(r0, c0), (r1, c1), (rng.randrange(r0, r1 + 1), rng.randrange(c0, c1 + 1)), (rng.randrange(nr), rng.randrange(nc))])
+        ev.append(["border", r, c, rng.choice(SIDES), rng.choice([2.0, 3.0, 8.0]), 1])
+    if rng.random() < 0.7:
+        ev.append(["q"])
+    if rng.random() < 0.3:
+        ev.append(["rh", rng.randrange(nr), rng.choice([30, 55])])
+    ev.append(["merge", rng_a1])
+    if rng.random() < 0.4:
+        ev.append(["border", rng.randrange(nr), rng.randrange(nc), rng.choice(SIDES), 8.0, 1])
+    if rng.random() < 0.3:
+        ev.append(["q"])
+    rng.shuffle(ev) if rng.random() < 0.2 else None
+    return {"kind": "merge-geometry", "rows": nr, "cols": nc, "events": ev, "look_before_save": rng.random() < 0.85}
 
 
 CORPUS = [
@@ -725,7 +876,12 @@ def replay(path: str) -> int:
     d = json.loads(open(path).read())
     if d.get("kind") == "failing-input":
         with tempfile.TemporaryDirectory() as td:
-            fails = oracle_case(d["case"], Path(td), "replay")
+            if d["case"].get("kind") == "merge-geometry":
+                fails = merge_oracle(d["case"], Path(td), "replay")
+            elif d["case"].get("kind") == "added-table":
+                fails = added_table_oracle(d["case"], Path(td), "replay")
+            else:
+                fails = oracle_case(d["case"], Path(td), "replay")
         if fails:
             for sig, detail in fails[:5]:
                 print(f"replay: still failing [{sig}]: {detail}")
